@@ -258,6 +258,7 @@ func shape(s stmt) string {
 }
 
 var hypFile *os.File
+var commentsInserted int
 
 func run(src []byte, o *vh.Out, withFormat bool) {
 	hsrc := vh.Hex(src)
@@ -603,6 +604,10 @@ var funcs = []string{
 	"func add = (\n\taddInt\n\taddFloat\n)", "func (T).mul = (\n\t(T).mulInt\n)",
 	"func r() { s := `}\n{`; _ = s }", "func e()", "func (t T) String() string { return \"\" }",
 	"func /* c */ named() {}", "func v(xs ...int) { for x <- xs { println x } }",
+	"func (p *T) /* c */ name() {\n}", "func /* c */ (r T) name /* c */ () {}", "func (a T) /* op */ - (b T) T { return a }",
+	"func (T) /* c */ .sub = (\n\t(T).subInt\n)", "func (r T) name() /* c */ (int, error) { return 0, nil }",
+	"func g2[K comparable, V any](m map[K]V) /* c */ []K { return nil }", "func (r *T) // eol\nname() {}",
+	"func (r T) m2(f func(int) (int, error)) /* c */ func() { return nil }",
 }
 var stmtsT = []string{
 	"println \"hello\"", "x := 1", "y := func() {}", "for i <- 0:3 {\n\tprintln i\n}",
@@ -613,6 +618,10 @@ var stmtsT = []string{
 	"func(a func()) {}(nil)", "func() (int, error) { return 0, nil }()", "x.y = z", "return",
 	"s := \"func f() {}\"", "println 1km", "func() func() { return nil }()()", "for {\n}",
 	"select {}", "onStart => {\n\tsay \"hi\"\n}", "run \"a\", => {\n}",
+	"func() /* c */ (int) { return 1 }()", "func(a int) /* c */ { println a }(1)", "func() /* c */ int { return 1 }()",
+	"func(a, b int) (int, error) /* c */ { return a, nil }(1, 2)", "func /* c */ (a int) /* c */ (r int) { return a }(3)",
+	"func() /* c */ func() { return nil }()()", "g := t.method", "func() /* c */ *T { return nil }().m()",
+	"func(xs ...int) /* c */ []int { return xs }(1, 2)...", "func() // eol\n{ println 1 }()",
 }
 var comments = []string{"# x", "// c", "/* c */", "/* multi\nline */", "//go:generate x", "// func f() {}", "/* } */", "// {"}
 var weird = []string{
@@ -622,6 +631,47 @@ var weird = []string{
 }
 var seps = []string{"\n", "\n", "\n", "\n\n", ";", "; ", " ", "\r\n", "\n\t", "\n// sep\n"}
 var soup = []string{"func", "(", ")", "{", "}", ";", "\n", "var", "const", "type", "x", "1", "/*c*/", "//c\n", "=", ",", "\"s\"", ".", "+", "[", "]", ":=", "go", "return", "=>"}
+
+
+// withComments inserts 1-2 comments at random TOKEN BOUNDARIES of a chunk (boundaries taken from
+// the real scanner, so never inside a literal or another comment): block comments anywhere, line
+// comments (which add a newline and may end the statement there) less often.
+func withComments(r *vh.Rand, chunk string) string {
+	k := 1 + r.Intn(2)
+	for n := 0; n < k; n++ {
+		ws, bad := scan([]byte(chunk))
+		if bad != "" || len(ws) < 2 {
+			return chunk
+		}
+		// token starts (skip index 0: a leading comment is produced elsewhere); prefer the
+		// neighbourhood of parentheses, where the classifier looks
+		var cand []int
+		for i := 1; i < len(ws); i++ {
+			if ws[i].off <= 0 || ws[i].off > len(chunk) || (i > 0 && ws[i].off == ws[i-1].off) {
+				continue
+			}
+			cand = append(cand, ws[i].off)
+			if ws[i-1].tok == token.RPAREN || ws[i].tok == token.LPAREN || ws[i-1].tok == token.FUNC {
+				cand = append(cand, ws[i].off, ws[i].off)
+			}
+		}
+		if len(cand) == 0 {
+			return chunk
+		}
+		at := cand[r.Intn(len(cand))]
+		c := "/* c */ "
+		switch r.Intn(10) {
+		case 0, 1:
+			c = "// c\n"
+		case 2:
+			c = "/* m\n */"
+		case 3:
+			c = "/**/"
+		}
+		chunk = chunk[:at] + c + chunk[at:]
+	}
+	return chunk
+}
 
 func genScript(r *vh.Rand) []byte {
 	var b bytes.Buffer
@@ -667,6 +717,10 @@ func genScript(r *vh.Rand) []byte {
 			c = r.Pick(stmtsT)
 		default:
 			c = r.Pick(weird)
+		}
+		if r.Chance(30) {
+			c = withComments(r, c)
+			commentsInserted++
 		}
 		b.WriteString(c)
 		if i+1 < nd+n || r.Chance(70) {
@@ -739,6 +793,23 @@ func main() {
 		run(src, o, true)
 		return
 	}
+	// minimised past misses / disagreements first
+	for _, dir := range []string{os.Getenv("VERIF_CORPUS"), "/verif/corpus/C24", "corpus/C24"} {
+		if dir == "" {
+			continue
+		}
+		ents, err := os.ReadDir(dir)
+		if err != nil {
+			continue
+		}
+		for _, e := range ents {
+			if b, err := os.ReadFile(filepath.Join(dir, e.Name())); err == nil {
+				o.Count("regression_corpus")
+				run(b, o, true)
+			}
+		}
+		break
+	}
 	for _, s := range fixed {
 		run([]byte(s), o, true)
 	}
@@ -768,4 +839,5 @@ func main() {
 	for i := 0; i < f.N; i++ {
 		run(genScript(r.Fork(i)), o, true)
 	}
+	o.Stats["chunks_with_inserted_comments"] = commentsInserted
 }
